@@ -125,6 +125,30 @@ func verif_C10_ops(kind, viewKind, op, R, C, zmask int) {
 			}
 		}
 		VerifAssert("Iterator:count", k == len(want))
+		// iteration from a start position: the non-zero elements at or after it
+		for i0 := 0; i0 < n; i0++ {
+			for j0 := 0; j0 < m; j0++ {
+				var from []ent
+				for _, w := range want {
+					if w.i > i0 || (w.i == i0 && w.j >= j0) {
+						from = append(from, w)
+					}
+				}
+				k = 0
+				for it := v.m.ConstIteratorFrom(i0, j0); it.Ok(); it.Next() {
+					i, j := it.Index()
+					if k < len(from) {
+						VerifAssert("ConstIteratorFrom:index", i == from[k].i && j == from[k].j)
+						VerifAssertEqF("ConstIteratorFrom:value", it.GetConst().GetFloat64(), from[k].x)
+					}
+					k++
+					if k > n*m+2 {
+						break
+					}
+				}
+				VerifAssert("ConstIteratorFrom:count", k == len(from))
+			}
+		}
 	case 5: // Reset through the view
 		v.m.Reset()
 		for i := 0; i < n; i++ {
